@@ -336,6 +336,26 @@ func c13Profiles(tier Tier) []*explore.Profile {
 			uni.Call(uni.A0, uni.A0, vmcommon.BuiltInFunctionESDTNFTCreate, uni.S, lz, []byte("n"), []byte{0, 100}, []byte("h"), []byte("a"), []byte("u")),
 			uni.Call(uni.A0, uni.A0, vmcommon.BuiltInFunctionMultiESDTNFTTransfer, uni.C1, []byte{0, 2}, uni.S, lz, lz, uni.F, []byte{0}, lz),
 			uni.Call(uni.A0, uni.A0, vmcommon.BuiltInFunctionMultiESDTNFTTransfer, uni.B0, lz, uni.F, []byte{0, 0}, lz))
+		// variable-length argument tails with empty arguments in every position (a function that
+		// filters, compacts or reorders its argument list in place shows here)
+		e, u1, u2 := []byte{}, []byte("u1"), []byte("uri-2")
+		for _, tail := range [][][]byte{{e, u2}, {u1, e}, {e, e, u2}, {u1, e, u2}, {u2, u1}} {
+			acts = append(acts,
+				uni.Call(uni.A0, uni.A0, vmcommon.BuiltInFunctionESDTNFTAddURI, append([][]byte{uni.S, uni.Big(1)}, tail...)...),
+				uni.Call(uni.A0, uni.A0, vmcommon.BuiltInFunctionESDTNFTCreate, append([][]byte{uni.S, uni.Big(1), []byte("n"), uni.Big(1), []byte("h"), []byte("a")}, tail...)...),
+				uni.Call(uni.A0, uni.S0, vmcommon.BuiltInFunctionESDTTransfer, append([][]byte{uni.F, uni.Big(1), []byte("f")}, tail...)...),
+				uni.Call(uni.A0, uni.A0, vmcommon.BuiltInFunctionESDTNFTTransfer, append([][]byte{uni.S, uni.Big(1), uni.Big(1), uni.S0, []byte("f")}, tail...)...),
+				uni.Call(uni.A0, uni.A0, vmcommon.BuiltInFunctionMultiESDTNFTTransfer, append([][]byte{uni.S1c, uni.Big(2), uni.S, uni.Big(1), uni.Big(1), uni.F, e, uni.Big(1), []byte("f")}, tail...)...),
+				uni.Call(uni.A0, uni.A0, vmcommon.BuiltInFunctionSaveKeyValue, append([][]byte{[]byte("k"), []byte("v")}, tail[:2]...)...),
+			)
+		}
+		acts = append(acts,
+			uni.Call(uni.A0, uni.A0, vmcommon.BuiltInFunctionSaveKeyValue, []byte("k"), e, []byte("k2"), []byte("v")),
+			uni.Call(uni.A0, uni.A0, vmcommon.BuiltInFunctionSaveKeyValue, []byte("k"), []byte("v"), []byte("k"), e, []byte("k"), []byte("w")),
+			uni.SetRole(uni.B0, uni.S, vmcommon.ESDTRoleNFTBurn, vmcommon.ESDTRoleNFTBurn, vmcommon.ESDTRoleNFTAddQuantity),
+			uni.UnSetRole(uni.A0, uni.S, vmcommon.ESDTRoleNFTBurn, "ESDTRoleUnknown", vmcommon.ESDTRoleNFTBurn),
+			uni.Multi(uni.A0, uni.B0, []uni.Ent{{Tok: uni.F, Nonce: 0, Q: 1}, {Tok: uni.S, Nonce: 1, Q: 1}, {Tok: uni.F, Nonce: 0, Q: 1}}),
+		)
 		return acts
 	}
 	depth := 2
